@@ -32,6 +32,8 @@ def ramp(dt, shape, base):
 
 
 def file_for(kind, flavour):
+    if isinstance(kind, dict):
+        return grid_file(kind, flavour)
     f = RFile()
     f.fillkinds = {}
     nc4 = flavour == 'NETCDF4'
@@ -100,6 +102,81 @@ def file_for(kind, flavour):
     return f
 
 
+FILLS = {'i1': (-99, 0), 'u1': (255, 0), 'i2': (-999, 0), 'u2': (65535, 0), 'i4': (-999, 0, -5), 'u4': (4294967295, 0),
+         'i8': (-999, 0), 'u8': (18446744073709551615, 0), 'f4': (-999., 0., 1e20), 'f8': (-999., 0., 1e20, -5.)}
+PATTERNS = ('one', 'all', 'none', 'first', 'last')
+FILLKINDS = ('fill_value', 'missing_value', '_FillValue')
+
+
+def gramp(dt, shape, base):
+    """values that never equal a fill candidate of the dtype in an unmasked cell"""
+    n = int(np.prod(shape)) if shape else 1
+    if dt == 'S1':
+        return np.array(list('abcdefghij'[:n]), dtype='S1').reshape(shape)
+    v = 1 + (base + np.arange(n)) % 90
+    if np.dtype(dt).kind == 'f':
+        v = v + 0.25
+    if np.dtype(dt).kind == 'i' and dt != 'i1':
+        v = v * np.where(np.arange(n) % 2, -1, 1)
+    return v.reshape(shape).astype(dt)
+
+
+def grid_file(rec, flavour):
+    """one dtype, one mask configuration, one variable per dimension shape"""
+    f = RFile()
+    f.fillkinds = {}
+    nt = rec['nt']
+    f.dims['t'] = [nt, True]
+    f.dims['z'] = [1, False]
+    f.dims['x'] = [3, False]
+    dt = rec['dt']
+    shapes = [(('t', 'z', 'x'), (nt, 1, 3)), (('t', 'x'), (nt, 3)), (('x',), (3,)), (('z', 'x'), (1, 3)), ((), ())]
+    if flavour == 'NETCDF4':
+        shapes.append((('x', 't'), (3, nt)))
+    if dt == 'S1':
+        shapes = [s_ for s_ in shapes if s_[0] in (('x',), ('t', 'x'))]
+    for i, (dims, sh) in enumerate(shapes):
+        name = 'V%d' % len(dims) + ('r' if dims[:1] == ('x',) and len(dims) == 2 else '')
+        d = gramp(dt, sh, 7 * (i + 1))
+        if rec['mask'] is None or dt == 'S1':
+            f.vars[name] = RVar(dims, d, attrs=OrderedDict([('units', 'u'), ('long_name', name)]))
+            continue
+        pat, fk, fill = rec['mask']
+        m = np.zeros(sh, bool)
+        if m.size:
+            if pat == 'one':
+                m.flat[1 if m.size > 1 else 0] = True
+            elif pat == 'all':
+                m[...] = True
+            elif pat == 'first':
+                m.flat[0] = True
+            elif pat == 'last':
+                m.flat[m.size - 1] = True
+        f.vars[name] = RVar(dims, d, m, OrderedDict([('units', 'ppb')]), fill=fill, masked=True)
+        f.fillkinds[name] = fk
+    f.attrs['title'] = 'grid'
+    return f
+
+
+def grid_recs(tier, flavour):
+    dts = list(CLASSIC_DT) + (list(NC4_DT) if flavour == 'NETCDF4' else [])
+    out = []
+    for dt in dts:
+        nts = (2, 1, 0) if tier == 'thorough' else (2, 0)
+        for nt in nts:
+            out.append({'dt': dt, 'mask': None, 'nt': nt})
+        if dt == 'S1':
+            continue
+        pats = PATTERNS if tier == 'thorough' else PATTERNS[:3]
+        for pat in pats:
+            for fk in FILLKINDS:
+                fills = FILLS[dt] if tier == 'thorough' else FILLS[dt][:2]
+                for fill in fills:
+                    for nt in ((2, 0) if tier == 'thorough' and pat == 'one' else (2,)):
+                        out.append({'dt': dt, 'mask': [pat, fk, fill], 'nt': nt})
+    return out
+
+
 def build_real(rf):
     P = lib.pnc()
     f = P.PseudoNetCDFFile()
@@ -143,7 +220,10 @@ class Prop(core.Prop):
 
     def bounds(self, tier):
         return {'kinds': ['dtypes', 'masked', 'attrs', 'dims'], 'flavours': FLAVOURS, 'complevel': [0, 1],
-                'writers': WRITERS, 'prior_compressed_save': [False, True]}
+                'writers': WRITERS, 'prior_compressed_save': [False, True],
+                'grid_files': {fl: len(grid_recs(tier, fl)) for fl in FLAVOURS},
+                'grid_axes': {'dtypes': list(CLASSIC_DT) + list(NC4_DT), 'patterns': PATTERNS,
+                              'fillkinds': FILLKINDS, 'record_lengths': [2, 1, 0]}}
 
     def worker_init(self):
         core.load_lib()
@@ -156,8 +236,18 @@ class Prop(core.Prop):
         for kind in ('dtypes', 'masked', 'attrs', 'dims'):
             for fl in FLAVOURS:
                 yield {'kind': kind, 'flavour': fl}
+        for fl in FLAVOURS:
+            for rec in grid_recs(tier, fl):
+                yield {'kind': rec, 'flavour': fl, 'tier': tier}
 
     def expand(self, group):
+        if isinstance(group['kind'], dict):
+            g = {k: v for k, v in group.items() if k != 'tier'}
+            thorough = group['tier'] == 'thorough'
+            for cl in ((0, 1) if thorough else (0,)):
+                for w in (WRITERS if thorough else ('save',)):
+                    yield dict(g, complevel=cl, writer=w, prior=False)
+            return
         for cl in (0, 1):
             for w in WRITERS:
                 for prior in (False, True):
@@ -185,10 +275,16 @@ class Prop(core.Prop):
         real = build_real(rf0)
         rf = lib.snap(real, cls='netcdf')
         st = [rfile.canon(rf)]
-        sig = ('save', case['kind'], case['flavour'])
-        scope = dict(kind=case['kind'], flavour=case['flavour'], complevel=case['complevel'],
+        kname = case['kind'] if not isinstance(case['kind'], dict) else 'grid'
+        sig = ('save', kname, case['flavour'])
+        scope = dict(kind=kname, flavour=case['flavour'], complevel=case['complevel'],
                      writer=case['writer'], prior=case['prior'],
                      compressed_nc3=bool((case['complevel'] or case['prior']) and 'NETCDF3' in case['flavour']))
+        if kname == 'grid':
+            rec = case['kind']
+            scope.update(gdtype=rec['dt'], nt=rec['nt'], pattern=rec['mask'][0] if rec['mask'] else 'unmasked',
+                         gfillkind=rec['mask'][1] if rec['mask'] else None,
+                         gfill=repr(rec['mask'][2]) if rec['mask'] else None)
         path = os.path.join(self.tmp, 'c07_%d.nc' % os.getpid())
         vs = []
         ntrans = 0
@@ -251,7 +347,7 @@ class Prop(core.Prop):
                         k, rfile._short(gv.data[keep]), rfile._short(ev.data[keep])), **vscope))
             vs.extend(self.attr_diff(k, gv.attrs, ev.attrs, ev, sig, vscope))
         return result('viol' if vs else 'ok', vs, st + [rfile.canon(g)] if not vs else st, ntrans,
-                      h64('c07', sorted(case.items())), rfile.canon(g) if not vs else None)
+                      h64('c07', repr(sorted(case.items(), key=str))), rfile.canon(g) if not vs else None)
 
     def attr_diff(self, where, got, exp, ev, sig, scope):
         out = []
